@@ -101,6 +101,24 @@ type env struct {
 func (g *g) body(e env, n, depth int) string {
 	var b strings.Builder
 	b.WriteString(g.atom(e.ext))
+	panics := false
+	if depth == 0 && g.r.Intn(5) == 0 {
+		// the body (of a macro, of a rendered file, of a page) has deferred
+		// calls: it returns through the deferred-call path of the VM; some
+		// bodies panic at their end and recover in a deferred call
+		switch g.r.Intn(4) {
+		case 0:
+			b.WriteString("{% defer func() {}() %}")
+		case 1:
+			b.WriteString("{% defer func() { _ = len(list) }() %}{% defer func() {}() %}")
+		case 2:
+			b.WriteString("{% defer func() { recover() }() %}")
+		default:
+			b.WriteString("{% defer func() { recover() }() %}")
+			panics = true
+		}
+		b.WriteString(g.atom(e.ext))
+	}
 	for i := 0; i < n; i++ {
 		switch w := g.r.Intn(100); {
 		case w < 30:
@@ -132,6 +150,9 @@ func (g *g) body(e env, n, depth int) string {
 			b.WriteString(g.atom(e.ext))
 		}
 		b.WriteString(g.atom(e.ext))
+	}
+	if panics {
+		b.WriteString("{% panic(\"recovered by the deferred call\") %}" + g.atom(e.ext))
 	}
 	return b.String()
 }
